@@ -224,6 +224,131 @@ def _origin_ord(c: Ctx, f: Func, call: ast.Call, arg: ast.AST, depth: int = 0) -
     return ""
 
 
+# ------------------------------------------------------------------------------------------------ INT / UNIPRED
+UNI_PREDS = {"isdigit", "isdecimal", "isnumeric", "isalpha", "isalnum", "isspace", "isupper", "islower", "istitle", "isidentifier", "isprintable"}
+_POSITIVE = "def f(state, pos):\n    ch = state.src[pos]\n    if ch.isdigit():\n        return int(ch)\n    return -1\n"
+
+
+def _uni_pred_calls(fn: ast.AST) -> list[ast.Call]:
+    return [n for n in ast.walk(fn) if isinstance(n, ast.Call) and isinstance(n.func, ast.Attribute) and n.func.attr in UNI_PREDS and not n.args]
+
+
+def _digit_group_ok(pattern: str) -> bool:
+    """Every character class / literal inside the pattern's capturing groups is a hex digit or an x marker."""
+    import re._parser as sp          # type: ignore[import-not-found]
+    ok = True
+    hexd = set("0123456789abcdefABCDEFxX")
+
+    def walk(seq, inside: bool) -> None:
+        nonlocal ok
+        for op, av in seq:
+            name = str(op)
+            if name == "SUBPATTERN":
+                walk(av[3], True)
+            elif name == "BRANCH":
+                for alt in av[1]:
+                    walk(alt, inside)
+            elif name in ("MAX_REPEAT", "MIN_REPEAT"):
+                walk(av[2], inside)
+            elif name == "IN" and inside:
+                for (k, v) in av:
+                    if str(k) == "LITERAL" and chr(v) not in hexd:
+                        ok = False
+                    elif str(k) == "RANGE" and not all(chr(x) in hexd for x in range(v[0], v[1] + 1)):
+                        ok = False
+                    elif str(k) in ("CATEGORY", "NEGATE"):
+                        ok = False
+            elif name == "LITERAL" and inside and chr(av) not in hexd:
+                ok = False
+            elif name in ("ANY", "CATEGORY") and inside:
+                ok = False
+    walk(sp.parse(pattern), False)
+    return ok
+
+
+def rule_intarg(c: Ctx) -> RuleResult:
+    r = RuleResult("INT", "the text handed to int() consists of ASCII (hex) digits: it is a group of a digit-class regex, or a source slice "
+                          "delimited by code-point range tests - no Unicode-aware str predicate (isdigit, isspace ...) classifies source "
+                          "characters anywhere in the parse phase")
+    # positive example: the lint must fire on a planted use
+    planted = _uni_pred_calls(ast.parse(_POSITIVE))
+    if len(planted) != 1:
+        raise AnchorError("UNIPRED self-example did not match: the lint is broken")
+    r.add("self-example", "<built-in>", "-", "ch.isdigit()", "discharged", "trivial: the planted positive example is recognised (the lint is alive)")
+    regexes = {(m.rel, name): (pat, flags) for (m, name, pat, flags, node) in c.p.regex_constants() if name}
+    for f in sorted(c.cg.parse_phase(), key=lambda x: x.qual):
+        for call in _uni_pred_calls(f.node):
+            if c.p.func_of_node.get(f.node) is not f:
+                continue
+            recv_t = c.tf.scope(f).type(call.func.value)
+            if recv_t not in ("str", None):
+                continue
+            r.add(f"{f.short}|unipred|{alpha(f, call)}", c.where(f, call), f.short, U(call), "violation",
+                  f"`.{call.func.attr}()` classifies by Unicode category ('²'.isdigit() is True, '\\x1c'.isspace() is True): the rules' grammar "
+                  f"is defined on ASCII classes, and a character admitted here reaches code that assumes ASCII (int() raises ValueError)")
+        rd = None
+        for call in own_nodes(f.node):
+            if not (isinstance(call, ast.Call) and isinstance(call.func, ast.Name) and call.func.id == "int" and call.args):
+                continue
+            if c.tf.scope(f).is_local("int"):
+                continue
+            arg = call.args[0]
+            rd = rd or Reaching(c.cfg(f))
+            how = _int_source(c, f, arg, call, rd, regexes)
+            key = f"{f.short}|int|{alpha(f, call)[:60]}"
+            if how.startswith("!"):
+                r.add(key, c.where(f, call), f.short, U(call)[:70], "violation",
+                      f"int() of {how[1:]}: a non-digit reaching int() raises ValueError out of parse()")
+            else:
+                r.add(key, c.where(f, call), f.short, U(call)[:70], "discharged", how)
+    r.floor = 4
+    return r
+
+
+def _int_source(c: Ctx, f: Func, e: ast.AST, at: ast.AST, rd: Reaching, regexes: dict, depth: int = 0) -> str:
+    if depth > 5:
+        return "!a value whose provenance is too deep to follow"
+    if isinstance(e, ast.Subscript):
+        base = e.value
+        if isinstance(base, ast.Attribute) and base.attr == "src":
+            # slice of the source: delimited by a scanner; that scanner must use code-point range tests (no Unicode predicate is
+            # allowed anywhere in the phase - checked above)
+            return "a source slice delimited by code-point range tests (no Unicode-aware predicate in the phase)"
+        return _int_source(c, f, base, at, rd, regexes, depth + 1)
+    if isinstance(e, ast.Call) and isinstance(e.func, ast.Attribute) and e.func.attr == "group":
+        m = e.func.value
+        if isinstance(m, ast.Name):
+            for d in rd.at_ast(at, m.id):
+                v = d.value
+                if v is None or not (isinstance(v, ast.Call) and isinstance(v.func, ast.Attribute) and isinstance(v.func.value, ast.Name)):
+                    return f"!group of `{m.id}`, which is not the result of a module-level compiled pattern"
+                rx = regexes.get((f.module.rel, v.func.value.id))
+                if rx is None:
+                    return f"!group of a match against `{v.func.value.id}`, which is not a foldable regex constant"
+                if not _digit_group_ok(rx[0]):
+                    return f"!group of `{v.func.value.id}` = /{rx[0]}/, whose groups admit characters other than hex digits"
+            return "group of a regex constant whose groups admit only (hex) digits"
+        return "!a regex group whose match object cannot be traced"
+    if isinstance(e, ast.Name):
+        ds = rd.at_ast(at, e.id)
+        if not ds:
+            return f"!`{e.id}` (no reaching definition)"
+        outs = []
+        for d in ds:
+            if d.value is None or d.kind not in ("assign", "walrus"):
+                return f"!`{e.id}`, bound by {d.kind}"
+            o = _int_source(c, f, d.value, d.stmt, rd, regexes, depth + 1)
+            if o.startswith("!"):
+                return o
+            outs.append(o)
+        return outs[0]
+    if isinstance(e, ast.IfExp):
+        a = _int_source(c, f, e.body, at, rd, regexes, depth + 1)
+        b = _int_source(c, f, e.orelse, at, rd, regexes, depth + 1)
+        return a if a.startswith("!") else b
+    return f"!`{U(e)[:40]}`"
+
+
 # ------------------------------------------------------------------------------------------------ DEF
 FALSY = (None, False, 0, "", ())
 
